@@ -1,11 +1,12 @@
 #!/bin/sh
-# Build everything the checks need, offline, from files on disk. (cwd /verif)
+# Build everything the checks need, offline, from files on disk. (run from /verif; works from any copy of it)
 set -e
-cd /verif
+cd "$(dirname "$0")"
+V=$(pwd)
 export CARGO_NET_OFFLINE=true
-(cd harness && cargo build --offline 2>&1 | tail -1)
-(cd harness && cargo build --offline --no-default-features --target-dir /verif/.build/cargo-nostd 2>&1 | tail -1)
-(cd harness && cargo build --offline --features serialize --target-dir /verif/.build/cargo-serialize 2>&1 | tail -1)
-(cd harness_sendsync && cargo build --offline 2>&1 | tail -1)
+(cd harness && cargo build --offline --target-dir $V/.build/cargo 2>&1 | tail -1)
+(cd harness && cargo build --offline --no-default-features --target-dir $V/.build/cargo-nostd 2>&1 | tail -1)
+(cd harness && cargo build --offline --features serialize --target-dir $V/.build/cargo-serialize 2>&1 | tail -1)
+(cd harness_sendsync && cargo build --offline --target-dir $V/.build/cargo-sendsync 2>&1 | tail -1)
 python3 tools/gen_tables.py >/dev/null
 (cd lean && lake build driver TlsModel 2>&1 | tail -2)
